@@ -322,11 +322,25 @@ HEADER_EXTRA = (
 )
 
 
-def run_static(cases, stats, cast_log):
+def all_nodes(graph):
+    """Nodes of a graph and, depth first, of the subgraphs in its nodes' attributes (If/Loop/Scan bodies)."""
+    out = []
+    for n in graph:
+        out.append(n)
+        for a in n.attributes.values():
+            if a.type.name == "GRAPH" and a.value is not None:
+                out += all_nodes(a.value)
+            elif a.type.name == "GRAPHS" and a.value:
+                for g in a.value:
+                    out += all_nodes(g)
+    return out
+
+
+def run_static(cases, stats, cast_log, sources=None):
     """Returns list of results (canonical outs or 'ERR:…' / 'REFUSED:…')."""
     import onnx_ir as ir
 
-    fn, err, modname = scriptgen.compile_functions(static_sources(cases), header_extra=HEADER_EXTRA)
+    fn, err, modname = scriptgen.compile_functions(sources or static_sources(cases), header_extra=HEADER_EXTRA)
     results = []
     for i, case in enumerate(cases):
         name = f"f{i}"
@@ -341,7 +355,7 @@ def run_static(cases, stats, cast_log):
             continue
         try:
             graph = fn[name].function_ir.graph
-            nodes = list(graph)
+            nodes = all_nodes(graph)
             target = None
             for n in reversed(nodes):
                 if n.op_type == case["op"]:
@@ -804,6 +818,231 @@ def random_cases(rows, rng, n, stats):
     return cases
 
 
+# --------------------------------------------------------------------------- converter: literals across scopes
+
+SCOPE_OPS = {"Mul": "*", "Add": "+", "Sub": "-", "Div": "/"}
+PLACEMENTS = ["if_outer", "loop_outer", "if_inner", "if_inline", "loop_inline", "top"]
+
+
+def scope_source(i: int, case: dict) -> tuple[str, str]:
+    """A script function in which the literal of a binary operator call sits in a chosen scope relation to the call:
+    bound to a local name in the OUTER scope and used inside an If/Loop body (`*_outer`), bound inside the body
+    (`if_inner`), written inline inside the body (`*_inline`), or bound and used at top level (`top`)."""
+    v, op, pl = case["opset"], case["op"], case["placement"]
+    toks = case["args"]
+    lit_pos = 0 if toks[0][0] in "sl" else 1
+    dt = toks[1 - lit_pos].split(":")[1]
+    lit = lit_src(dec_lit(toks[lit_pos]))
+    named = pl in ("if_outer", "loop_outer", "if_inner", "top")
+    a = "a" if named else lit
+    operands = (a, "x") if lit_pos == 0 else ("x", a)
+    if case["form"] == "operator":
+        expr = f"{operands[0]} {SCOPE_OPS[op]} {operands[1]}"
+    else:
+        expr = f"opset{v}.{op}({operands[0]}, {operands[1]})"
+    L = [f"@script(default_opset=opset{v})"]
+    if pl.startswith("loop"):
+        L.append(f"def f{i}(x: {dt}[2], n: INT64):")
+        if pl == "loop_outer":
+            L.append(f"    a = {lit}")
+        L += [f"    acc = opset{v}.Identity(x)", "    for i in range(n):", f"        t = {expr}",
+              f"        acc = opset{v}.Max(acc, t)", "    return acc"]
+    elif pl.startswith("if"):
+        L.append(f"def f{i}(x: {dt}[2], c: BOOL):")
+        if pl == "if_outer":
+            L.append(f"    a = {lit}")
+        L.append("    if c:")
+        if pl == "if_inner":
+            L.append(f"        a = {lit}")
+        L += [f"        y = {expr}", "    else:", f"        y = opset{v}.Identity(x)", "    return y"]
+    else:
+        L += [f"def f{i}(x: {dt}[2]):", f"    a = {lit}", f"    y = {expr}", "    return y"]
+    return f"f{i}", "\n".join(L) + "\n"
+
+
+def scope_cases(byname, rng, n):
+    cases = []
+    combos = [(pl, form) for pl in PLACEMENTS for form in ("operator", "call")]
+    k = 0
+    while len(cases) < n:
+        pl, form = combos[k % len(combos)]
+        k += 1
+        op = rng.choice(sorted(SCOPE_OPS))
+        v = rng.choice([13, 15, 18, 21, 23])
+        r = byname[(op, v)]
+        lit = rng.choice(LITSET + [3, 0.1, [2, 3, 4]])
+        dt = rng.choice(["DOUBLE", "FLOAT16", "FLOAT", "INT32", "INT64", "UINT8"])
+        args = [enc_lit(lit), f"t:{dt}:1"] if rng.random() < 0.4 else [f"t:{dt}:1", enc_lit(lit)]
+        cases.append(dict(op=op, opset=v, sig=r["sig"], raw=r["raw"], args=args, kind="scope", placement=pl, form=form))
+    return cases
+
+
+def scope_key(c):
+    return f"{case_key(c)} [{c['placement']}/{c['form']}]"
+
+
+def check_scope(run, drv, cases, stats, cast_log):
+    """Converter only: the operand a scoped literal becomes vs `castStatic` (tie) and the rule (property)."""
+    lines = []
+    for c in cases:
+        lines += [case_line("static", c), case_line("expected", c), case_line("repr", c)]
+    outs = drv.ask(lines)
+    res = run_static(cases, stats, cast_log, sources=[scope_source(i, c) for i, c in enumerate(cases)])
+    problems = []
+    for i, c in enumerate(cases):
+        m_static, m_exp = parse_model(outs[3 * i]), parse_model(outs[3 * i + 1])
+        representable = outs[3 * i + 2] == "1"
+        r = res[i]
+        stats["scope_cases"] += 1
+        stats["scope_" + c["placement"]] += 1
+        stats["static_cases"] += 1
+        if isinstance(r, str) and r.startswith("REFUSED"):
+            stats["scope_refused"] += 1
+            continue
+        src = scope_source(0, c)[1]
+        if not isinstance(r, str) and any(o[0] == "?" for o in r):
+            problems.append((c, "static", "tie", f"unreadable operand {r} in\n{src}"))
+            continue
+        d = same_out(r, m_static, stats)
+        if d:
+            problems.append((c, "static", "tie", f"[{c['placement']}/{c['form']}] impl {show_out(r)} ; model {show_out(m_static)} : {d}"))
+        d = same_out(r, m_exp)
+        if d:
+            fid = None if representable else classify(c, m_exp)
+            if representable or fid:
+                problems.append((c, "static", "property",
+                                 f"[{c['placement']}/{c['form']}] converter feeds {show_out(r)} ; rule {show_out(m_exp)} : {d} ; program:\n{src}", fid))
+            else:
+                stats["outside_representable_not_judged"] += 1
+    return problems
+
+
+# --------------------------------------------------------------------------- builder: histories of opsets in one process
+
+
+def ser_outs(outs):
+    if isinstance(outs, str):
+        return outs
+    res = []
+    for o in outs:
+        if o[0] == "C":
+            arr = np.asarray(o[3])
+            res.append(["C", o[1], bool(o[2]), arr.tobytes().hex(), list(arr.shape)])
+        else:
+            res.append(list(o))
+    return res
+
+
+def deser_outs(ser):
+    if isinstance(ser, str):
+        return ser
+    res = []
+    for o in ser:
+        if o[0] == "C":
+            dt = DT.get(o[1])
+            arr = np.frombuffer(bytes.fromhex(o[3]), dtype=dt).reshape(o[4]) if dt is not None else None
+            res.append(("C", o[1], o[2], arr))
+        else:
+            res.append(tuple(o))
+    return res
+
+
+def history_worker_main():
+    """`python -m harness.c12_history`: run builder calls in the given order in THIS fresh process."""
+    import sys
+
+    items = json.load(sys.stdin)
+    stats, cast_log, out = Counter(), set(), []
+    for it in items:
+        case = dict(op=it["op"], opset=it["opset"], args=it["args"])
+        direct = run_builder([case], stats, cast_log)[0]
+        e2e = run_builder([case], stats, cast_log, end_to_end=True)[0]
+        out.append({"direct": ser_outs(direct), "e2e": ser_outs(e2e)})
+    json.dump(out, sys.stdout)
+
+
+def run_history(items):
+    import subprocess
+    import sys
+
+    try:
+        p = subprocess.run([sys.executable, "-m", "harness.c12_history"], input=json.dumps(items), capture_output=True,
+                           text=True, cwd=str(core.VERIF), timeout=600)
+    except subprocess.TimeoutExpired as e:
+        raise core.Infra("history worker timed out") from e
+    if p.returncode != 0:
+        raise core.Infra(f"history worker failed rc={p.returncode}: {p.stderr[-600:]}")
+    return json.loads(p.stdout[p.stdout.index("["):])
+
+
+def history_items(rows, rng, order: str, per_pos: int):
+    """For every operator with several versions in opsets 13..23: calls at one opset of each version, versions visited
+    ascending or descending, all in one process.  Siblings are FLOAT16 so that 'default FLOAT' and 'sibling dtype' differ."""
+    by_op: dict[str, list] = {}
+    for r in rows:
+        by_op.setdefault(r["op"], []).append(r)
+    items = []
+    for op in sorted(by_op):
+        rs = sorted(by_op[op], key=lambda r: r["since"], reverse=(order == "desc"))
+        if len(rs) < 2:
+            continue
+        for r in rs:
+            v = r["opsets"][0] if order == "asc" else r["opsets"][-1]
+            n = len(r["sig"])
+            for p in positions(r["sig"])[: n + 1]:
+                for lit in rng.sample([0.5, 1, [1], True, 2.5, [0.5]], per_pos):
+                    items.append(dict(op=op, opset=v, sig=r["sig"], raw=r["raw"], args=probe_args(n, p, lit, "t:FLOAT16:1"),
+                                      kind="history", order=order))
+    return items
+
+
+def check_history(run, drv, items, stats):
+    """Compare what a builder feeds at (op, opset) — after other opsets of the same operator were traced in the same
+    process — with the per-version model (tie) and rule (property)."""
+    if not items:
+        return []
+    lines = []
+    for c in items:
+        lines += [case_line("builder", c), case_line("expected", c), case_line("repr", c)]
+    outs = drv.ask(lines)
+    real = run_history([dict(op=c["op"], opset=c["opset"], args=c["args"]) for c in items])
+    problems = []
+    seen_of: dict[str, list] = {}
+    for i, c in enumerate(items):
+        m_b, m_e = parse_model(outs[3 * i]), parse_model(outs[3 * i + 1])
+        representable = outs[3 * i + 2] == "1"
+        before = list(seen_of.get(c["op"], []))
+        seen_of.setdefault(c["op"], [])
+        if c["opset"] not in seen_of[c["op"]]:
+            seen_of[c["op"]].append(c["opset"])
+        stats["history_calls"] += 1
+        stats["builder_cases"] += 1
+        for path in ("direct", "e2e"):
+            r = deser_outs(real[i][path])
+            if isinstance(r, str) and r.startswith("ERR:other"):
+                stats["history_other_error_" + path] += 1
+                if path == "e2e":
+                    continue
+            if not isinstance(r, str) and any(o[0] == "?" for o in r):
+                problems.append((c, "builder", "tie", f"unreadable operand {r}"))
+                continue
+            hist = f"in a process that traced {c['op']} at opset(s) {before} before" if before else "first trace of the operator in the process"
+            d = same_out(r, m_b, stats)
+            if d:
+                problems.append((c, "builder", "tie", f"[{path}, {hist}] impl {show_out(r)} ; model {show_out(m_b)} : {d}"))
+            d = same_out(r, m_e)
+            if d:
+                fid = None if representable else classify(c, m_e)
+                if representable or fid:
+                    problems.append((c, "builder", "property",
+                                     f"[{path}, {hist}] builder feeds {show_out(r)} ; rule for {c['op']}@{c['opset']} {show_out(m_e)} : {d}", fid,
+                                     [dict(op=x["op"], opset=x["opset"], args=x["args"], sig=x["sig"], raw=x["raw"], kind="history", order=x["order"])
+                                      for x in items[: i + 1] if x["op"] == c["op"]]))
+                else:
+                    stats["outside_representable_not_judged"] += 1
+    return problems
+
+
 # --------------------------------------------------------------------------- checking a batch
 
 
@@ -967,7 +1206,16 @@ def main(run: core.Run) -> None:
             cc = c["case"]
             cc["sig"] = [tuple(f) for f in cc["sig"]]
             cc["raw"] = [tuple(f) for f in cc["raw"]]
-            probs = check_batch(run, drv, [cc], stats, rec, cast_log)
+            if c.get("history"):
+                items = c["history"]
+                for it in items:
+                    it["sig"] = [tuple(f) for f in it["sig"]]
+                    it["raw"] = [tuple(f) for f in it["raw"]]
+                probs = check_history(run, drv, items, stats)
+            elif cc.get("kind") == "scope":
+                probs = check_scope(run, drv, [cc], stats, cast_log)
+            else:
+                probs = check_batch(run, drv, [cc], stats, rec, cast_log)
             for p in probs:
                 print(f"REPLAY {p[2]} {p[1]}: {case_key(p[0])} :: {p[3]}")
             if any(p[2] == "tie" or (p[2] == "property" and p[4] is None) for p in probs):
@@ -994,6 +1242,16 @@ def main(run: core.Run) -> None:
     batch(sweep_cases(sweep_rows, run.rng, quick, stats), e2e_every=7)
     n_random = run.size(2500, 40000) * (3 if drift and quick else 1)
     batch(random_cases(rows, run.rng, n_random, stats), e2e_every=11)
+
+    # ---- converter: literals bound in an outer scope and used inside If/Loop bodies (and the other scope relations)
+    sc = scope_cases(byname, run.rng, run.size(420, 4200) * (3 if drift and quick else 1))
+    for k in range(0, len(sc), 300):
+        all_problems.extend(check_scope(run, drv, sc[k : k + 300], stats, cast_log))
+    seen.update(scope_key(c) for c in sc)
+
+    # ---- builder: the same operator traced at several opsets in ONE process, ascending and descending
+    for order in ("asc", "desc"):
+        all_problems.extend(check_history(run, drv, history_items(rows, run.rng, order, run.size(1, 3)), stats))
 
     bad_casts = validate_casts_on_ort(cast_log, stats)
 
@@ -1028,7 +1286,7 @@ def main(run: core.Run) -> None:
                 if known[fid] == 1:
                     run.known(fid, f"{c['op']}@{c['opset']}({', '.join(str(dec_lit(a)) if a[0] in 'sl' else a for a in c['args'])}): {detail}")
             else:
-                prop_fail.append((c, fe, detail))
+                prop_fail.append((c, fe, detail, p[5] if len(p) > 5 else None))
     cache_viol = []
     for seq, j, k, detail in cache_prop:
         if pred_d10(seq[j][0], seq[k][0]) and "D10" in findings:
@@ -1041,13 +1299,23 @@ def main(run: core.Run) -> None:
         stats["known_" + fid] = known[fid]
 
     def slim(c):
-        return dict(op=c["op"], opset=c["opset"], sig=c["sig"], raw=c["raw"], args=c["args"], kind=c["kind"])
+        return {k: c[k] for k in ("op", "opset", "sig", "raw", "args", "kind", "placement", "form", "order") if k in c}
 
     if prop_fail:
         prop_fail.sort(key=lambda p: (len(p[0]["args"]), len(str(p[0]["args"]))))
-        c, fe, detail = prop_fail[0]
-        run.violation({"case": slim(c), "front_end": fe, "detail": detail, "others": len(prop_fail) - 1},
-                      f"{fe} promotes a literal differently from the rule: {case_key(c)} :: {detail}")
+        c, fe, detail, hist = prop_fail[0]
+        body = {"case": slim(c), "front_end": fe, "detail": detail, "others": len(prop_fail) - 1}
+        if hist:
+            body["history"] = hist  # the builder calls of this operator executed, in order, in one fresh process
+        elif fe == "builder":
+            body["process_history"] = ("before this call the translator (harness/extract_schemas.py) called BuilderBase._get_schema for every "
+                                       "operator at opsets 13, 14, …, 23 in this order, in this process; `--replay` does the same")
+        run.violation(body, f"{fe} promotes a literal differently from the rule: {case_key(c)} :: {detail}")
+        with_hist = [p for p in prop_fail if p[3]]
+        if with_hist and not hist:
+            c, fe, detail, hist = with_hist[0]
+            run.violation({"case": slim(c), "front_end": fe, "detail": detail, "history": hist, "others": len(with_hist) - 1},
+                          f"builder result depends on which opsets were traced earlier in the process: {case_key(c)} :: {detail}")
     if cache_viol:
         seq, j, k, detail = min(cache_viol, key=lambda v: len(v[0]))
         run.violation({"seq": [[l, d] for l, d in seq[: k + 1]], "detail": detail}, f"constant cache shares a tensor with a different value: {detail}")
@@ -1072,7 +1340,7 @@ def main(run: core.Run) -> None:
         run.violation({"broken": "proof obligations of OV.Props.C12 (registry_ok is regenerated from /repo's schema readings)",
                        "problems": audit["problems"], "log": audit["build_log"][-1500:]},
                       "Lean proof obligations for C12 do not check: " + "; ".join(audit["problems"][:3]), no_input=True)
-    if problems:
+    if problems and not prop_fail:
         run.violation({"broken": "translator: the two schema readings are not comparable", "problems": problems[:10]},
                       "schema registry readings diverge: " + "; ".join(problems[:3]), no_input=True)
 
